@@ -888,9 +888,21 @@ class TeX(object):
             if t.catcode != Token.CC_ESCAPE and \
                (t == begin or str(t) == str(begin)):
                 level = 1
+                # Delimiters inside of a {...} group are hidden (unless the
+                # braces themselves are the delimiters)
+                bracelevel = 0
+                countbraces = t.catcode != Token.CC_BGROUP
                 for t in tokens:
                     source.append(t)
-                    if t.catcode != Token.CC_ESCAPE and \
+                    if countbraces and t.catcode == Token.CC_BGROUP:
+                        bracelevel += 1
+                        toks.append(t)
+                    elif countbraces and t.catcode == Token.CC_EGROUP:
+                        bracelevel -= 1
+                        toks.append(t)
+                    elif bracelevel > 0:
+                        toks.append(t)
+                    elif t.catcode != Token.CC_ESCAPE and \
                        (t == begin or str(t) == str(begin)):
                         toks.append(t)
                         level += 1
